@@ -42,7 +42,50 @@ def oracle_heads(case, lines, runner=None):
                 fails.append({'what': f'the simulation ran out of events with a satisfiable request pending on the {k}', 'signature': 'strand-final'})
     return fails[:3]
 
+def oracle_handout(case, lines, runner=None):
+    """a get served on the spot receives the oldest item (Store), a smallest item (PriorityStore), the first match (FilterStore)"""
+    from harness.kscript import FILTERS
+    for n in runner.notes:
+        if n[0] != 'got-now':
+            continue
+        _, kind, before, v, f, now = n
+        if kind == 'store':
+            want = before[0] if before else None
+        elif kind == 'pstore':
+            want = min(before) if before else None
+        else:
+            want = next((x for x in before if FILTERS[f](x)), None)
+        if want is None or v != want:
+            return [{'what': f'a get on the {kind} holding {sorted(before) if kind == "pstore" else before} was handed {v!r} at {now}; '
+                             f'the item due is {want!r}', 'signature': f'{kind}-handout-order'}]
+    return []
+
+def oracle_conservation(case, lines, runner=None):
+    """container level = initial + granted puts - granted gets; every accepted store item is handed out at most once and
+    what is neither held nor handed out was never accepted (from the final public state of the requests the program created)"""
+    if runner is None or any(l.startswith('X ') for l in lines):
+        return []
+    from onl.sim.resources.container import ContainerPut, ContainerGet
+    from onl.sim.resources.store import StorePut, StoreGet
+    import collections
+    for ri, ((k, cap, ini), r) in enumerate(zip(case.res, runner.res)):
+        mine = [e for e in runner.keep if getattr(e, 'resource', None) is r]
+        if k == 'container':
+            puts = sum(e.amount for e in mine if isinstance(e, ContainerPut) and e.triggered and e.ok)
+            gets = sum(e.amount for e in mine if isinstance(e, ContainerGet) and e.triggered and e.ok)
+            if r.level != ini + puts - gets:
+                return [{'what': f'container level is {r.level}; initial {ini} + granted puts {puts} - granted gets {gets} = {ini + puts - gets}',
+                         'signature': 'container-conservation'}]
+        elif k in ('store', 'pstore', 'fstore'):
+            acc = collections.Counter(e.item for e in mine if isinstance(e, StorePut) and e.triggered and e.ok)
+            out = collections.Counter(e.value for e in mine if isinstance(e, StoreGet) and e.triggered and e.ok)
+            held = collections.Counter(r.items)
+            if acc != out + held:
+                return [{'what': f'{k}: accepted items {sorted(acc.elements())} but handed out {sorted(out.elements())} and still holding '
+                                 f'{sorted(held.elements())} (an item was lost, duplicated or invented)', 'signature': 'store-exactly-once'}]
+    return []
+
 def run(ctx):
-    return kprops.run_kernel(ctx, 'C07', SPEC, 1500, 40000, oracles=[oracle_bounds, oracle_heads],
+    return kprops.run_kernel(ctx, 'C07', SPEC, 1500, 40000, oracles=[oracle_bounds, oracle_heads, oracle_handout, oracle_conservation],
                              nontrivial=lambda c, lines: any(('pq' in l and not re.search(r'pq0 gq0', l)) for l in lines if l.startswith('S ')),
                              rule='seeded put/get/cancel histories of 2-8 processes on containers and the three stores; non-trivial = distinct history in which some request had to queue')
